@@ -52,9 +52,16 @@ type ReqPlan struct {
 	Parent string `json:"parent,omitempty"`
 	// Local: the request does not cross the simulated wire; the client's *http.Request is handed to
 	// API.ServeHTTP with an httptest.ResponseRecorder, exactly as the generated LocalClient() does.
-	Local   bool     `json:"local,omitempty"`
-	Raw     []byte   `json:"raw,omitempty"`
-	RawDesc []string `json:"raw_desc,omitempty"`
+	Local bool `json:"local,omitempty"`
+	// After: the caller task of this request starts only when the caller of request After has returned - a history
+	// inside one execution (what an earlier request, typically one that failed half-way, left behind in shared state
+	// meets the concurrent batch that follows).
+	After string `json:"after,omitempty"`
+	// RespBadFloats: floats of the planned response body are NaN / infinite every third time (the JSON body cannot be
+	// encoded: the error path of the response writer runs).
+	RespBadFloats bool     `json:"resp_bad_floats,omitempty"`
+	Raw           []byte   `json:"raw,omitempty"`
+	RawDesc       []string `json:"raw_desc,omitempty"`
 }
 
 type RunPlan struct {
@@ -69,6 +76,8 @@ type RunPlan struct {
 	NilSpec        bool      `json:"nil_spec,omitempty"`         // leave API.SpecFileHandler nil
 	CustomNotFound bool      `json:"custom_not_found,omitempty"` // install a NotFoundHandler
 	Reqs           []ReqPlan `json:"reqs"`
+	// Prelude: tag of the request that is served to completion before the callers of the others start ("" = none)
+	Prelude string `json:"prelude,omitempty"`
 }
 
 type ReqObs struct {
@@ -119,6 +128,7 @@ type env struct {
 	cli        reflect.Value // *Client
 	res        *RunResult
 	nestedDone map[string]bool
+	callerDone map[string]bool
 }
 
 // Transport is the HTTPClient seam of the generated client.
@@ -351,7 +361,7 @@ func BuildResponse(p *Pkg, rp *ReqPlan, failRaw bool) (reflect.Value, reflect.Ty
 	}
 	// bodies use the body alphabet
 	if f := v.FieldByName("Body"); f.IsValid() && f.CanSet() {
-		gb := &values.Gen{R: frng(rp.RespSeed, 3), Tag: rp.Tag, Level: rp.Level, OneOf: p.OneOf, Discr: p.Discr, MaxRaw: 96 << 10}
+		gb := &values.Gen{R: frng(rp.RespSeed, 3), Tag: rp.Tag, Level: rp.Level, OneOf: p.OneOf, Discr: p.Discr, MaxRaw: 96 << 10, BadFloats: rp.RespBadFloats}
 		f.Set(gb.Value(f.Type(), values.LocBody))
 		if failRaw && f.Kind() == reflect.Interface && !f.IsNil() {
 			if tr, ok := f.Interface().(*values.TagReader); ok && len(tr.Data) > 0 {
@@ -605,7 +615,7 @@ func Exec(p *Pkg, plan *RunPlan, t *tape.Tape, logOn bool) *RunResult {
 	s.SameFunc = func(a, b int) bool {
 		return a>>20 == b>>20 && p.YieldFunc[a&0xfffff] != "" && p.YieldFunc[a&0xfffff] == p.YieldFunc[b&0xfffff]
 	}
-	e := &env{p: p, plan: plan, s: s, obs: res.Obs, plans: map[string]*ReqPlan{}, res: res, nestedDone: map[string]bool{}}
+	e := &env{p: p, plan: plan, s: s, obs: res.Obs, plans: map[string]*ReqPlan{}, res: res, nestedDone: map[string]bool{}, callerDone: map[string]bool{}}
 	taskData = map[*sim.Task]any{}
 	restore := e.setup()
 	defer restore()
@@ -622,7 +632,14 @@ func Exec(p *Pkg, plan *RunPlan, t *tape.Tape, logOn bool) *RunResult {
 		if rp.Parent != "" {
 			continue // sent by its parent's handler
 		}
-		s.Go("cli:"+rp.Tag, rp.Tag, func() { e.caller(rp) })
+		s.Go("cli:"+rp.Tag, rp.Tag, func() {
+			defer func() { e.callerDone[rp.Tag] = true }()
+			if rp.After != "" {
+				s.Probes["caller_started_after_an_earlier_request_returned"]++
+				s.Block("after "+rp.After, func() bool { return e.callerDone[rp.After] })
+			}
+			e.caller(rp)
+		})
 	}
 	// shared-state discipline
 	trackShared := !p.UnsimSync
